@@ -1,9 +1,62 @@
-"""C04 — speculation is bounded by the prediction window; lockstep never speculates."""
+"""C04 — speculation is bounded by the prediction window; lockstep never speculates.
+
+Besides the session correspondence and the L4 families (starved peers, windows 0..=12), the lockstep helper
+`advance_frame_with_wait_timeout` is driven on two real lockstep sessions (harness level `wait`): packets become
+visible only after the receiver has polled a number of times, every poll advances the virtual clock by 1 ms, so the
+awaited input can arrive in the middle of the wait; after every call: no AdvanceFrame returned => current_frame()
+unchanged, at most one frame per call, only Confirmed inputs, no Save/Load, the game ends at current_frame()."""
+import json
 from . import families as F
 from .simprops import generic_run, sizes, sim_replay
 from .p_session import run_session_correspondence
 LABELS = {"C04", "PANIC"}
+
+def gen_wait_lines(rng, n):
+    out = []
+    for _ in range(n):
+        fps = rng.choice([30, 60, 60, 120])
+        out.append("wait seed=%d delay=%d fps=%d timeout=%d ticks=%d" % (
+            rng.randrange(1 << 30), rng.choice([0, 0, 1, 2, 4]), fps, rng.choice([0, 1, 4, 1000 // fps, 1000 // fps, 40]), rng.choice([40, 80, 160])))
+    return out
+
+def run_wait_level(ctx):
+    lines = gen_wait_lines(ctx.rng, 1500 if ctx.thorough else 150)
+    res = ctx.run_impl("wait", lines, "debug")
+    mon = ctx.cov["monitors"].setdefault("lockstep_wait", {"scenarios": 0, "frames": 0, "advancing_wait_calls": 0, "stalled_calls": 0})
+    for line, r in zip(lines, res):
+        mon["scenarios"] += 1
+        if r.startswith("ok "):
+            kv = dict(t.split("=") for t in r.split()[1:])
+            a, b = kv["frames"].split("/")
+            mon["frames"] += int(a) + int(b); mon["advancing_wait_calls"] += int(kv["waits_resolved"]); mon["stalled_calls"] += int(kv["stalls"])
+            ctx.count(nontrivial_key=("wait", line) if int(a) + int(b) >= 10 else None)
+        else:
+            ctx.hit("lockstep-wait", "%s  (`%s`)" % (r[:300], line), {"level": "wait", "op": line})
+    ctx.cov["traces_validated_against_impl"] += len(lines)
+
+def extra(ctx):
+    run_session_correspondence(ctx)
+    run_wait_level(ctx)
+
 def run(ctx):
-    generic_run(ctx, LABELS, extra=run_session_correspondence, plan=[("dstarve", lambda: F.fam_death_starve(ctx.rng, sizes(ctx, 100, 1000))), ("starve", lambda: F.fam_starve(ctx.rng, sizes(ctx, 200, 2000))), ("c01w", lambda: F.fam_c01(ctx.rng, sizes(ctx, 200, 2000), tag="c04", windows=tuple(range(0, 13))))])
+    generic_run(ctx, LABELS, extra=extra, plan=[("dstarve", lambda: F.fam_death_starve(ctx.rng, sizes(ctx, 100, 1000))), ("starve", lambda: F.fam_starve(ctx.rng, sizes(ctx, 200, 2000))), ("c01w", lambda: F.fam_c01(ctx.rng, sizes(ctx, 200, 2000), tag="c04", windows=tuple(range(0, 13))))])
+
 def replay(ctx, path):
-    return sim_replay(ctx, path, LABELS)
+    body = json.load(open(path))
+    bad, rest = 0, []
+    for h in body.get("failing_inputs", []):
+        rp = h.get("replay", {})
+        if rp.get("level") == "wait":
+            ctx.needed_consts = []; ctx.consts = {}
+            ctx.build_harness(("debug",))
+            r = ctx.run_impl("wait", [rp["op"]], "debug")[0]
+            print("replay `%s` -> %s" % (rp["op"], r[:200]))
+            bad += not r.startswith("ok ")
+        else:
+            rest.append(h)
+    if rest or not body.get("failing_inputs"):
+        rc = sim_replay(ctx, path, LABELS)
+        return 1 if (rc or bad) else 0
+    if bad:
+        print("VIOLATION property=C04 replay=%s" % path)
+    return 1 if bad else 0
